@@ -144,7 +144,49 @@ func short(s string) string {
 	return s
 }
 
+// propFound is set by every PropFail of this harness: the search stops at the first concrete failing input.
+var propFound bool
+var tieFails int
+
+func propFail(key, what string, replay interface{}) {
+	propFound = true
+	r.PropFail(key, what, replay)
+}
+
+// tail: requests appended to a case after the model and the implementation disagreed (the model is then
+// left out and the run continues against the Go map only): make everything durable, reopen, read every key;
+// then write fresh records (> 24 bytes each), close, reopen, read them. Turns a disagreement in the
+// bookkeeping (pending set, directory listing, counters) into an observable failure where there is one.
+func tailLines(c caseT, open bool) []string {
+	keys := map[string]bool{}
+	var ks []string
+	for _, l := range c.Lines {
+		t := strings.Fields(l)
+		switch t[0] {
+		case "put", "putext", "del", "get", "flags":
+			if !keys[t[1]] {
+				keys[t[1]] = true
+				ks = append(ks, t[1])
+			}
+		}
+	}
+	var out []string
+	if open {
+		out = append(out, "sync", "close")
+	}
+	out = append(out, "open 0 1 "+defOpts)
+	for _, k := range ks {
+		out = append(out, "get "+k)
+	}
+	out = append(out, "put 900001 "+hexOf(pat(40, 3)), "put 900002 "+hexOf(pat(33, 5)), "sync", "put 900003 "+hexOf(pat(25, 7)),
+		"close", "open 0 1 "+defOpts, "get 900001", "get 900003", "close", "open 0 0 "+defOpts, "get 900002")
+	return out
+}
+
 // runCase executes the lines; returns false when a violation was recorded.
+// When the model and the implementation disagree the disagreement is recorded (TieFail), the model is left
+// out from there on, and the rest of the case plus tailLines is run against the property's own predicate
+// (Go map, durability rule at every crash point) — a concrete failing input subsumes the disagreement.
 func runCase(c caseT) bool {
 	ref := newRef()
 	if W.dead {
@@ -157,8 +199,18 @@ func runCase(c caseT) bool {
 	} else {
 		W.ask("snap 0")
 	}
-	upto := func(i int) caseT { return caseT{c.Name, c.Snap, c.Lines[:i+1]} }
-	for i, line := range c.Lines {
+	lines := append([]string{}, c.Lines...)
+	upto := func(i int) caseT { return caseT{c.Name, c.Snap, lines[:i+1]} }
+	desync, tailed, crashed := false, false, false
+	leaveModel := func(i int) {
+		desync = true
+		tieFails++
+		if !strings.HasPrefix(c.Name, "tail:") {
+			c.Name = "tail:" + c.Name
+		}
+	}
+	for i := 0; i < len(lines); i++ {
+		line := lines[i]
 		t := strings.Fields(line)
 		op := t[0]
 		if op == "seed" { // only W and O's directory are prepared (crash-state corpus entries)
@@ -169,72 +221,164 @@ func runCase(c caseT) bool {
 			}
 			continue
 		}
+		if op == "crashat" {
+			// the process dies inside the previous request (at one of its crash points); the history continues on that
+			// directory, on the model's matching crash directory (Model.Qdb.crashDir) and on whatever the durability
+			// rule allows for the Go map (adopted at the next open)
+			// (pending records are written in Go's map order: only crash points whose directory listing the model also
+			// reaches can be continued on both sides; the search starts at the point the case names and wraps around —
+			// "before", the directory as it was before the request, always qualifies)
+			r.Hit("op:crashat")
+			x, _ := strconv.Atoi(t[1])
+			ls, _ := W.ask("crashls")
+			pts := strings.Split(ls, ";")
+			chosen := -1
+			for d := 0; d < len(pts) && ls != ""; d++ {
+				j := (x + d) % len(pts)
+				bar := strings.IndexByte(pts[j], '|')
+				listing := pts[j][bar+1:]
+				if listing == "" {
+					listing = "-"
+				}
+				if desync || strings.HasPrefix(o.MustAsk("crashat "+listing), "ok") {
+					chosen = j
+					break
+				}
+			}
+			if chosen < 0 && ls != "" {
+				r.TieFail("tie:crashat", fmt.Sprintf("request %d %q: the model reaches none of the real crash directories %q", i, short(line), short(ls)), upto(i))
+				leaveModel(i)
+				chosen = x % len(pts)
+			}
+			if ls == "" { // no crash point recorded: the directory as it is
+				chosen = 0
+				if !desync {
+					o.MustAsk("crashat " + func() string {
+						_, st := splitRes(func() string { s, _ := W.ask("crashat 0"); return s }())
+						if l := strings.TrimPrefix(st, "files="); l != "" {
+							return l
+						}
+						return "-"
+					}())
+				}
+			} else {
+				wr, _ := W.ask(fmt.Sprintf("crashat %d", chosen))
+				if !strings.HasPrefix(wr, "ok ") {
+					r.TieFail("tie:crashat", "worker refused "+short(line)+": "+short(wr), upto(i))
+					return false
+				}
+				r.Hit("crashat@" + strings.Fields(wr)[1])
+				if !desync {
+					r.TieOK()
+				}
+			}
+			ref.restore()
+			ref.open = false
+			crashed = true
+			continue
+		}
 		ref.before(t)
 		wr, alive := W.ask(line)
-		or := o.MustAsk(line)
+		or := ""
+		if !desync {
+			or = o.MustAsk(line)
+		}
 		r.Hit("op:" + op)
 		if !alive {
 			// the store killed the process: never allowed by the property
 			what := fmt.Sprintf("request %d %q killed the process (%s); model says %q", i, short(line), W.lastErr(), short(or))
-			r.PropFail("prop:dead:"+op, what, upto(i))
+			propFail("prop:dead:"+op, what, upto(i))
 			fresh(&W)
 			return false
 		}
 		wres, wstate := splitRes(wr)
 		// the property on the real result
 		if bad := ref.check(t, wres); bad != "" {
-			r.PropFail("prop:"+op, fmt.Sprintf("request %d %q: %s", i, short(line), bad), upto(i))
+			propFail("prop:"+op, fmt.Sprintf("request %d %q: %s", i, short(line), bad), upto(i))
 			return false
 		}
-		if wr != or {
-			r.TieFail("tie:"+op, fmt.Sprintf("request %d %q: impl %q model %q", i, short(line), short(wr), short(or)), upto(i))
-			return false
-		}
-		r.TieOK()
-		if strings.Contains(wstate, "failed=") {
-			return true
+		if !desync {
+			if wr != or {
+				r.TieFail("tie:"+op, fmt.Sprintf("request %d %q: impl %q model %q", i, short(line), short(wr), short(or)), upto(i))
+				leaveModel(i)
+			} else {
+				r.TieOK()
+				if strings.Contains(wstate, "failed=") {
+					return true
+				}
+			}
 		}
 		// crash points of this request
 		if c.Snap && op != "count" {
-			if !crashCheck(c, i, t, ref) {
+			ok, tie := crashCheck(caseT{c.Name, c.Snap, lines}, i, t, ref, desync)
+			if !ok && !tie {
 				return false
 			}
+			if !ok && tie {
+				leaveModel(i)
+			}
 		}
-		ref.after(t, wstate)
+		if !crashed { // (after a crash the recovered content is adopted at the observation below; that is a sync point)
+			ref.save()
+			ref.after(t, wstate)
+		}
 		// observation after every step: Count and the full content (BrowseAll)
-		if op != "close" && op != "count" && op != "peek" {
+		nextDies := i+1 < len(lines) && strings.HasPrefix(lines[i+1], "crashat") // (a read would replace the crash points)
+		if op != "close" && op != "count" && op != "peek" && !nextDies {
 			q := "peek"
 			qr, alive := W.ask(q)
-			qo := o.MustAsk(q)
+			qo := ""
+			if !desync {
+				qo = o.MustAsk(q)
+			}
 			if !alive {
-				r.PropFail("prop:dead:"+q, fmt.Sprintf("%s after request %d %q killed the process (%s)", q, i, short(line), W.lastErr()), upto(i))
+				propFail("prop:dead:"+q, fmt.Sprintf("%s after request %d %q killed the process (%s)", q, i, short(line), W.lastErr()), upto(i))
 				fresh(&W)
 				return false
 			}
 			qres, _ := splitRes(qr)
+			if crashed { // first observation after a crash + reopen: the durability rule, then the history goes on from it
+				crashed = false
+				rec := "ok:" + strings.TrimSpace(qres[strings.IndexByte(qres, ' ')+1:])
+				bad := ref.durable(rec)
+				if bad == "" {
+					bad = ref.adopt(rec)
+				}
+				if bad != "" {
+					propFail("prop:durable:crashat", fmt.Sprintf("request %d %q after a crash: %s", i, short(line), bad), upto(i))
+					return false
+				}
+			}
 			if bad := ref.check([]string{q}, qres); bad != "" {
-				r.PropFail("prop:"+q, fmt.Sprintf("%s after request %d %q: %s", q, i, short(line), bad), upto(i))
+				propFail("prop:"+q, fmt.Sprintf("%s after request %d %q: %s", q, i, short(line), bad), upto(i))
 				return false
 			}
-			if qr != qo {
-				r.TieFail("tie:"+q, fmt.Sprintf("%s after request %d %q: impl %q model %q", q, i, short(line), short(qr), short(qo)), upto(i))
-				return false
+			if !desync {
+				if qr != qo {
+					r.TieFail("tie:"+q, fmt.Sprintf("%s after request %d %q: impl %q model %q", q, i, short(line), short(qr), short(qo)), upto(i))
+					leaveModel(i)
+				} else {
+					r.TieOK()
+				}
 			}
-			r.TieOK()
+		}
+		if desync && !tailed && i == len(lines)-1 {
+			tailed = true
+			lines = append(lines, tailLines(caseT{Lines: lines}, ref.open)...)
 		}
 	}
-	return true
+	return !desync
 }
 
 var crashPoints, crashStatesDistinct int
 
-// crashCheck evaluates every snapshot W took during request i.
-func crashCheck(c caseT, i int, t []string, ref *refT) bool {
+// crashCheck evaluates every snapshot W took during request i. ok=false, tie=true: only the model disagreed.
+func crashCheck(c caseT, i int, t []string, ref *refT, desync bool) (ok bool, tie bool) {
 	upto := caseT{c.Name, c.Snap, c.Lines[:i+1]}
 	snaps, _ := W.ask("crash")
 	var real []string
 	if snaps == "" {
-		return true // no file operation happened inside this request
+		return true, false // no file operation happened inside this request
 	}
 	{
 		for _, s := range strings.Split(snaps, ";") {
@@ -263,22 +407,25 @@ func crashCheck(c caseT, i int, t []string, ref *refT) bool {
 			}
 			if !alive {
 				what := fmt.Sprintf("request %d %q, crash at %s: the store does not open (%s)", i, short(c.Lines[i]), tag, R.lastErr())
-				r.PropFail("prop:open:"+tag, what, map[string]interface{}{"case": upto, "crash_at": tag})
-				return false
+				propFail("prop:open:"+tag, what, map[string]interface{}{"case": upto, "crash_at": tag})
+				return false, false
 			}
 			if bad := ref.durable(rec); bad != "" {
 				what := fmt.Sprintf("request %d %q, crash at %s: %s", i, short(c.Lines[i]), tag, bad)
-				r.PropFail("prop:durable:"+tag, what, map[string]interface{}{"case": upto, "crash_at": tag, "recovered": rec})
-				return false
+				propFail("prop:durable:"+tag, what, map[string]interface{}{"case": upto, "crash_at": tag, "recovered": rec})
+				return false, false
 			}
 			// continuation probe: the recovered store must keep working durably
 			if want := withSentinel(rec); cmd == "probe " && pr != want {
 				what := fmt.Sprintf("request %d %q, crash at %s: after recovery, Put+Sync+Close+reopen gives %q, want %q (%s)", i, short(c.Lines[i]), tag, short(pr), short(want), R.lastErr())
-				r.PropFail("prop:probe:"+tag, what, map[string]interface{}{"case": upto, "crash_at": tag})
-				return false
+				propFail("prop:probe:"+tag, what, map[string]interface{}{"case": upto, "crash_at": tag})
+				return false, false
 			}
 			real = append(real, rec)
 		}
+	}
+	if desync {
+		return true, false
 	}
 	mo := o.MustAsk("crash")
 	var model []string
@@ -291,10 +438,10 @@ func crashCheck(c caseT, i int, t []string, ref *refT) bool {
 	crashStatesDistinct += len(rd)
 	if strings.Join(rd, ";") != strings.Join(md, ";") {
 		r.TieFail("tie:crash", fmt.Sprintf("request %d %q: recovered states along the crash points: impl %q model %q", i, short(c.Lines[i]), short(strings.Join(rd, ";")), short(strings.Join(md, ";"))), upto)
-		return false
+		return false, true
 	}
 	r.TieOK()
-	return true
+	return true, false
 }
 
 // ---------------------------------------------------------------- main
@@ -330,14 +477,17 @@ func main() {
 	}
 	n := 0
 	for _, c := range corpus() {
+		if propFound || os.Getenv("VERIF_C19_NOCORPUS") != "" { // (self-test of the generator alone)
+			break
+		}
 		r.Eval("corpus", c.Name)
 		r.Sample(map[string]interface{}{"corpus": c.Name, "lines": len(c.Lines), "first": firstLines(c, 6)})
 		runCase(c)
 		n++
 	}
 	g := r.Rng
-	ncases := r.N(250, 4000)
-	for i := 0; i < ncases && r.Violations() == 0; i++ {
+	ncases := r.N(200, 4000)
+	for i := 0; i < ncases && !propFound && tieFails < 6; i++ {
 		c := genCase(g.Fork(), i)
 		r.Eval("generated", strings.Join(c.Lines, "\n"))
 		if i < 4 {
